@@ -76,7 +76,14 @@ def witness_args(prop, max_paths):
     return [{'prop': prop, 'texts': texts, 'max_paths': max_paths, 'witness': True, 'assist_budget': 200}]
 
 
-def run(run, plan, rule, require, assumptions):
+def dispatch(arg):
+    import importlib
+    fn, a = arg
+    mod, _, name = fn.partition(':')
+    return getattr(importlib.import_module(mod), name)(a)
+
+
+def run(run, plan, rule, require, assumptions, extra_jobs=()):
     """plan: list of dict(mode, size, n, risky, max_paths)."""
     prop = run.pid
     args = witness_args(prop, 4096)
@@ -85,7 +92,8 @@ def run(run, plan, rule, require, assumptions):
         for s in range(0, p['n'], chunk):
             args.append({'prop': prop, 'seed': run.seed, 'mode': p['mode'], 'size': p['size'], 'start': s,
                          'count': min(chunk, p['n'] - s), 'max_paths': p['max_paths'], 'risky': p.get('risky', 2)})
-    core.run_parts(run, 'vf.props.e1common:work', args, timeout=1800)
+    jobs = [['vf.props.e1common:work', a] for a in args] + [[fn, a] for fn, a in extra_jobs]
+    core.run_parts(run, 'vf.props.e1common:dispatch', jobs, timeout=1800)
     # witnesses of open findings: report the ones that no longer reproduce (not an error)
     wm = run.hists.get('witness_mechs', {})
     for k in wm:
